@@ -4,6 +4,7 @@ import Driver.FmtCmd
 import Driver.NcchCmd
 import Driver.CiaCmd
 import Driver.SaveCmd
+import Driver.NandCmd
 open Pyctr
 
 /-- `(fileops NODE (OP …))` → one rendered output per op, then the bottom buffers -/
@@ -40,6 +41,7 @@ def handle (line : String) : String :=
     | "tmd-load" | "tmd-roundtrip" | "tmd-ser" => handleTmd cmd args
     | "exefs-parse" | "exefs-build" | "exefs-norm" | "exefs-lookup" => handleExefs cmd args
     | "save-run" | "cmac" => handleSave cmd args
+    | "nand-open" | "nand-ops" | "nand-hdr" => handleNand cmd args
     | "ping" => "pong"
     | _ => "bad-cmd"
   | _ => "bad-line"
